@@ -395,3 +395,16 @@ def roles(ctx):
     if ctx._roles is None:
         ctx._roles = Roles(ctx)
     return ctx._roles
+
+
+def order_wrapper_path(facts):
+    """The order wrapper of the ordered collections, located by shape: a crate struct with exactly two fields, one a bare
+    type parameter and one `usize`, that has an `Ord` impl (it is the element type of the parked-output heap)."""
+    ords = {i["self_ty"].split("<")[0] for i in facts.impls if i["trait"] == "core::cmp::Ord" and not i.get("negative")}
+    for path, adt in facts.adts.items():
+        if adt["kind"] != "struct" or path not in ords:
+            continue
+        fs = adt["variants"][0]["fields"]
+        if len(fs) == 2 and sorted(("usize" if f["ty"] == "usize" else "param" if (facts.types.get(f["ty"]) or {}).get("k") == "param" else "?") for f in fs) == ["param", "usize"]:
+            return path
+    return None
